@@ -20,7 +20,6 @@ Definition mkps (U : list node) (pr te : list (Z * list Z)) (r : Z) (rn : Z) (rd
 Definition nd (name : Z) (args : list Z) (r : Z) (e : bool) : node :=
   mknode (Z.to_N name) (map Z.to_N args) (Z.to_N r) e 0.
 Definition oty (t : option Z) : option ty := option_map Z.to_N t.
-Definition DT (n t : Z) : draw := DChoiceT n (Z.to_N t).
 Definition DE (name v : Z) : draw := DEph (Z.to_N name) v.
 
 (* observed behaviour of the implementation *)
